@@ -1,25 +1,25 @@
 (** C08 — error-policy coherence: ignore, warn and fail tell one story.
 
-    PARTIAL.  Sentences 1 and 2 ("under ignore no validation finding is produced; under fail a nil
-    error comes with an empty validation") are proved for the WHOLE pipeline of the parser
-    (search for the record start, version line, header parser, header validation, parseBlock,
-    length/digest verification, end-of-record marker) and of the builder, for every input and
-    every option setting with no axis at warn - uniform ignore, uniform fail and every mix of the
-    two ([C08_no_axis_at_warn_*]).  Sentence 3 ("fail returns an error exactly when warn produces
-    at least one finding or an error") is proved for the whole parser on plain streams and for the
-    whole builder ([C08_parser_fail_errs_exactly_when_warn_finds_or_errs],
-    [C08_builder_...]): the run under fail and the run under warn proceed in lock step until the
-    first finding, stage by stage (Proofs/SyncProofs.v, Proofs/SyncPipeProofs.v).  The last sentence
-    (axis-by-axis monotonicity) is proved for the header parser along the syntax axis and for
-    header validation along its two axes ([C08_header_parser_rejection_is_monotone],
-    [C08_header_validation_rejection_is_monotone], Proofs/MonoProofs.v), and REFUTED for the whole
-    parser when the warc-fields block repair is on ([C08_axis_monotonicity_refuted_by_block_repair]):
-    the block is only repaired when the syntax policy makes its problems visible, so a record
-    that declares the digest of the repaired block is rejected under syntax=ignore, accepted under
+    All four sentences are decided for the whole parser on plain streams (search for the record
+    start, version line, header parser, header validation, parseBlock, length/digest
+    verification, end-of-record marker) and for the whole builder, for every input and option
+    setting.  Sentences 1 and 2 ("under ignore no validation finding is produced; under fail a
+    nil error comes with an empty validation"): with no axis at warn - uniform ignore, uniform
+    fail and every mix of the two - no stage adds a finding ([C08_no_axis_at_warn_*]).  Sentence 3
+    ("fail returns an error exactly when warn produces at least one finding or an error"): the
+    run under fail and the run under warn proceed in lock step until the first finding, stage by
+    stage ([C08_parser_fail_errs_exactly_when_warn_finds_or_errs], [C08_builder_...];
+    Proofs/SyncProofs.v, Proofs/SyncPipeProofs.v).  Sentence 4 (axis-by-axis monotonicity of
+    rejection): proved for all four axes at once when the warc-fields block repair is off or the
+    syntax level is the same in both settings ([C08_parser_rejection_is_monotone],
+    [C08_builder_rejection_is_monotone]; Proofs/MonoProofs.v, Proofs/MonoPipeProofs.v), and
+    REFUTED in the remaining case ([C08_axis_monotonicity_refuted_by_block_repair]): the block
+    is only repaired when the syntax policy makes its problems visible, so a record that
+    declares the digest of the repaired block is rejected under syntax=ignore, accepted under
     warn and rejected under fail.  The attempt to prove the sentence produced this witness; the
-    implementation behaves the same (known finding wfblock-repair-nonmonotone).  Not mechanised:
-    the last sentence for the remaining stages with that repair off, and the gzip container; they
-    are evaluated on the implementation (all axis settings for every generated input). *)
+    implementation behaves the same (known finding wfblock-repair-nonmonotone).  Not
+    mechanised: the gzip container; it is evaluated on the implementation (all axis settings
+    for every generated input). *)
 Require Import Model.Bytes Model.FieldDef Gen.FieldTable Model.Fields Model.Policy Model.Validate Model.Digest Model.Record.
 Require Import Model.Stream Proofs.NormalizeProofs Proofs.ValidateProofs Proofs.RecordProofs Proofs.PolicyProofs Proofs.SyncPipeProofs.
 Local Open Scope N_scope.
@@ -171,3 +171,49 @@ Theorem C08_axis_monotonicity_refuted_by_block_repair :
   uerr (r_run Ignore) = true /\ uerr (r_run Warn) = false /\ ufindings (r_run Warn) = [] /\ uerr (r_run Fail) = true.
 Proof. vm_compute. repeat split; reflexivity. Qed.
 Print Assumptions C08_axis_monotonicity_refuted_by_block_repair.
+
+(** the last sentence for the whole parser (plain streams) and the whole builder.  Every option
+    flag held fixed ([relevel4 o py ps pu pb] is [o] with the syntax, spec, unknown-type and block
+    axes at py, ps, pu, pb), an input rejected under one setting is rejected under every setting
+    at least as strict on each axis - in particular axis by axis - provided the syntax level is
+    the same in both settings or the warc-fields block repair is off.  With that repair on and
+    the syntax level varying the sentence is false ([C08_axis_monotonicity_refuted_by_block_repair]
+    above), so the side condition is exactly what the code satisfies.  Proof: every stage is
+    blind to the findings it is handed, so the pipeline is a function of the erased values, on
+    which each policy-dependent stage is monotone (Proofs/MonoPipeProofs.v). *)
+Require Import Proofs.MonoPipeProofs.
+Theorem C08_parser_rejection_is_monotone :
+  forall uni_lower uni_upper time_ok ip_ok uri_ok wid_ok mime_dec H b32 b64 http_req_ok http_resp_ok
+         o py ps pu pb py' ps' pu' pb' s,
+    stricter py py' -> stricter ps ps' -> stricter pu pu' -> stricter pb pb' ->
+    (py = py' \/ o_fix_wfblock o = false) ->
+    let run oo := snd (unmarshal_plain field_table required_fields uni_lower uni_upper time_ok ip_ok uri_ok wid_ok
+                                       mime_dec H b32 b64 http_req_ok http_resp_ok oo s) in
+    uerr (run (relevel4 o py ps pu pb)) = true -> uerr (run (relevel4 o py' ps' pu' pb')) = true.
+Proof. intros. eapply unmarshal_rejection_is_monotone4; try eassumption. exact gen_table_ok. Qed.
+Print Assumptions C08_parser_rejection_is_monotone.
+
+Theorem C08_builder_rejection_is_monotone :
+  forall uni_lower uni_upper time_ok ip_ok uri_ok wid_ok mime_dec H b32 b64 http_req_ok http_resp_ok
+         o py ps pu pb py' ps' pu' pb' vid rt hs content new_id,
+    stricter py py' -> stricter ps ps' -> stricter pu pu' -> stricter pb pb' ->
+    (py = py' \/ o_fix_wfblock o = false) -> canonical field_table uni_lower hs ->
+    let run oo := fst (build field_table required_fields uni_lower uni_upper time_ok ip_ok uri_ok wid_ok
+                             mime_dec H b32 b64 http_req_ok http_resp_ok oo vid rt hs content new_id) in
+    is_ok (run (relevel4 o py ps pu pb)) = false -> is_ok (run (relevel4 o py' ps' pu' pb')) = false.
+Proof. intros. eapply build_rejection_is_monotone4; try eassumption. exact gen_table_ok. Qed.
+Print Assumptions C08_builder_rejection_is_monotone.
+
+Definition r_stream2 : bytes :=
+  (bs "WARC/1.1" ++ r_crlf ++ bs "WARC-Type: resource" ++ r_crlf ++
+   bs "WARC-Record-ID: <urn:uuid:e9a0cecc-0221-11e7-adb1-0242ac120008>" ++ r_crlf ++
+   bs "WARC-Date: 2017-03-06T04:03:53Z" ++ r_crlf ++ bs "Content-Type: text/plain" ++ r_crlf ++
+   bs "Content-Length: 4" ++ r_crlf ++ r_crlf ++ bs "abcdef" ++ r_crlf ++ r_crlf)%list.
+Definition r_run_at (spec : policy) :=
+  snd (unmarshal_plain field_table required_fields r_id r_id r_yes r_yes r_yes r_yes r_nodec r_h r_nodec r_nodec r_yes r_yes
+               (relevel4 (r_opts Warn) Warn spec Warn Warn) (mkst r_stream2 TEOF)).
+(** non-vacuity: a record with a wrong declared length is accepted with the spec axis at warn
+    and rejected with it at fail *)
+Example C08_monotone_example :
+  uerr (r_run_at Warn) = false /\ uerr (r_run_at Fail) = true.
+Proof. vm_compute. split; reflexivity. Qed.
